@@ -40,8 +40,22 @@ static size_t Str__find_last_of_2(struct Str *s, const char *set, size_t pos) {
   return r;
 }
 static size_t Str__find_last_of_1(struct Str *s, const char *set) { return Str__find_last_of_2(s, set, npos); }
+/* find_last_not_of("/\\", pos): the last index <= pos holding a character that is not a separator, or npos */
+static size_t Str__find_last_not_of_2(struct Str *s, const char *set, size_t pos) {
+  __CPROVER_assert(set[0] == '/' && set[1] == '\\' && set[2] == 0, "MODEL-LIMIT find_last_not_of is modelled for the separator set only");
+  size_t hi = pos >= s->len ? s->len : pos + 1;
+  size_t r = nondet_size();
+  __CPROVER_assume(r == npos || (r < hi && !ISSEP(str_at(s, r))));
+#define ALLSEP(x) if ((x) < hi && (r == npos || (x) > r)) __CPROVER_assume(ISSEP(str_at(s, (x))));
+  INST5(ALLSEP) ALLSEP(hi - 1) ALLSEP(hi - 2)
+#undef ALLSEP
+  return r;
+}
+static size_t Str__find_last_not_of_1(struct Str *s, const char *set) { return Str__find_last_not_of_2(s, set, npos); }
+/* erase(pos): everything from pos on */
+static struct Str *Str__erase_1(struct Str *s, size_t pos) { return Str__erase_2(s, pos, npos); }
 /* erase(pos, n): removes min(n, size - pos) characters from pos; throws std::out_of_range when pos > size */
-static struct Str *Str__erase(struct Str *s, size_t pos, size_t n) {
+static struct Str *Str__erase_2(struct Str *s, size_t pos, size_t n) {
   __CPROVER_assert(pos <= s->len, "erase() position is inside the string (std::out_of_range otherwise)");
   size_t cnt = n < s->len - pos ? n : s->len - pos;
   if (cnt == 0) return s;
